@@ -21,8 +21,10 @@ prop(
     "Ack/loss reports name only ranges that an earlier pick-up returned (what the sent journal feeds back in production). "
     "forget_sent_state (0-RTT rejection) is exercised only before any acknowledgement and earlier ranges are then no longer reported. "
     "Stream-leg frame extents are not predicted (scheduling tokens are policy), only bounded by colour run, window and credit. "
-    "A pick-up that stops short of the predicted end is accepted only when it stops at a position where an earlier pick-up / write cut "
-    "the map (resend_flighting leaves equal-coloured neighbours un-merged; the property does not fix the extent); a duplicate bare FIN "
+    "A non-empty pick-up that stops short of the predicted end, or that starts at another offerable position (a lost run, or the lowest "
+    "never-sent byte, within the limits at that offset), is tolerated and counted: the property fixes neither extent nor order, only that "
+    "lost bytes are offered again (decided by the final drain). On the current tree short picks occur only where an earlier pick-up / write "
+    "cut the map (resend_flighting leaves equal-coloured neighbours un-merged) and out-of-order picks never; a duplicate bare FIN "
     "frame is accepted (a lost empty FIN leaves a zero-length Lost entry in the colour map that is offered once more).",
     design_ref="DESIGN.md §3 C09",
     legs=[dict(name="sendbuf", crate="l1rec", sub="c09", shards={Q: 16, T: 16}, budget={Q: 10000, T: 600000}, timeout=3600),
